@@ -38,7 +38,7 @@ PROP = {
     "assumptions": ["vector increments and strides are positive", "no overflow of BLAS int", "operand buffers do not overlap the output view",
                     "numerical rounding is not covered: data are exactly representable integers"],
     "rule": ("one program = one operation on generated operand views (recipe + descriptor read from the real view); the systematic part enumerates "
-             "operation x operand variant (N/T/J/H) x padding x size class (0..3 per dimension) independently of the seed, the random part draws element type, "
+             "operation x operand variant (N/T/J/H) x padding x sizes 0..4 per dimension (plus non-unit strides for herk/syrk and mismatched inner sizes for the gemm range forms) independently of the seed, the random part draws element type, "
              "scalars, offsets, strided parents, sizes 0..4 and the range/operator forms; distinct = different program text; "
              "non-trivial = a BLAS routine was reached and the output view has >= 2 elements (or a scalar result was produced)"),
     "level_text": ("Theorems over the dispatch chains REGENERATED from gemm.hpp/gemv.hpp/herk.hpp/syrk.hpp/trsm.hpp and the level-1 front ends, for all sizes (incl. 0, 1), all "
